@@ -2473,11 +2473,6 @@ impl<'a> Parser<'a> {
             return self.parse_yield_expression();
         }
 
-        // Check for await expression
-        if self.check(&TokenKind::Await) {
-            return self.parse_await_expression();
-        }
-
         let start = self.current.span;
         let expr = self.parse_conditional_expression()?;
 
@@ -2639,6 +2634,11 @@ impl<'a> Parser<'a> {
 
     fn parse_unary_expression_unguarded(&mut self) -> Result<Expression, JsError> {
         let start = self.current.span;
+
+        // `await x` is a unary expression: it may be an operand of any operator
+        if self.check(&TokenKind::Await) {
+            return self.parse_await_expression();
+        }
 
         if let Some(op) = self.current_unary_op() {
             self.advance();
